@@ -398,7 +398,8 @@ impl Vm {
     //@  sig "native: Gc<ObjNative>" => "native: &ObjNativeS"
     //@  subst "self.active_fiber_mut().set_native_arity(arg_count);" => "self.note_native_arity(Some(arg_count));"
     //@  subst "self.active_fiber_mut().take_native_arity();" => "self.note_native_arity(None);"
-    //@  subst "let function = native.function; let result = function(self, arg_count);" => "let result = self.run_native(native, arg_count);"
+    //@  subst "let function = native.function;" => ""
+    //@  subst "let result = function(self, arg_count);" => "let result = self.run_native(native, arg_count);"
     //@  subst "let exc_object = self.new_root_obj_err_from_error(error); self.poke(0, Value::ObjInstance(exc_object.as_gc()));" => "let exc_object = self.new_root_obj_err_from_error(error); self.poke(0, exc_object);"
     //@  requires old(self).fib.handlers_ok(), arg_count < old(self).fib.stack.view.len()
     //@  requires forall|i: int| 0 <= i < old(self).fib.exc_handlers@.len() ==> (#[trigger] old(self).fib.exc_handlers@[i]).init_stack_size <= old(self).fib.stack.view.len() - arg_count - 1
